@@ -52,10 +52,13 @@ NumKind(s) ==
         hasExp == e2 # 0 /\ e2 <= Len(s) /\ Ch(s, e2) \in Digits
         p3 == IF hasExp THEN RunIn(s, e2, Digits) ELSE p2
     IN IF p1 = 0 \/ p3 # Len(s) + 1 THEN "no" ELSE IF hasFrac \/ hasExp THEN "float" ELSE "int"
-\* the JSON containers of the test alphabet: [] {} and arrays of numbers
+\* the JSON containers of the test alphabet: [] {} and arrays of numbers, of the three JSON literals and of plain strings
+\* (no quote, backslash or comma inside)
+PlainJsonString(s) == Len(s) >= 2 /\ Ch(s, 1) = "\"" /\ Ch(s, Len(s)) = "\"" /\ \A i \in 2..(Len(s) - 1) : Ch(s, i) \notin {"\"", "\\", ","}
+JsonElem(s) == NumKind(s) # "no" \/ s \in {"true", "false", "null"} \/ PlainJsonString(s)
 RECURSIVE NumList(_)
 NumList(s) == LET c == IndexOf(s, ",", 1) IN
-              IF c = 0 THEN NumKind(s) # "no" ELSE NumKind(SubSeq(s, 1, c - 1)) # "no" /\ NumList(SubSeq(s, c + 1, Len(s)))
+              IF c = 0 THEN JsonElem(s) ELSE JsonElem(SubSeq(s, 1, c - 1)) /\ NumList(SubSeq(s, c + 1, Len(s)))
 IsJsonContainer(s) == s \in {"[]", "{}"} \/ (Len(s) >= 3 /\ Ch(s, 1) = "[" /\ Ch(s, Len(s)) = "]" /\ NumList(SubSeq(s, 2, Len(s) - 1)))
 EvalKind(s) ==
     IF s = "" \/ s = NULL THEN "none"
